@@ -1,3 +1,440 @@
-//! Dump of located AST nodes and of the stringifier source map (for C16). Filled in later.
-use serde_json::{json, Value};
-pub fn dump(_path: &str, _src: &str) -> Value { json!({}) }
+//! Dump of the located AST nodes of a parsed template and of the stringifier's source map (C16).
+//!
+//! Every item: {"k": kind, "n": name / value (as stored in the AST), "s": [line, col], "e": [line, col],
+//! "p": index of the parent item (or -1)}.
+
+use glass_easel_template_compiler::parse::expr::{ArrayFieldKind, Expression, ObjectFieldKind};
+use glass_easel_template_compiler::parse::tag::*;
+use glass_easel_template_compiler::parse::{Position, TemplateStructure};
+use glass_easel_template_compiler::stringify::{Stringifier, Stringify};
+use serde_json::{json, Value as J};
+use std::ops::Range;
+
+struct Out {
+    items: Vec<J>,
+}
+
+impl Out {
+    fn push(&mut self, kind: &str, name: Option<&str>, loc: &Range<Position>, parent: i64) -> i64 {
+        self.items.push(json!({
+            "k": kind, "n": name,
+            "s": [loc.start.line, loc.start.utf16_col], "e": [loc.end.line, loc.end.utf16_col], "p": parent,
+        }));
+        (self.items.len() - 1) as i64
+    }
+}
+
+fn expr(o: &mut Out, e: &Expression, parent: i64) {
+    let loc = e.location();
+    macro_rules! bin {
+        ($name:expr, $l:expr, $r:expr, $op:expr) => {{
+            let me = o.push($name, None, &loc, parent);
+            expr(o, $l, me);
+            o.push("operator", None, $op, me);
+            expr(o, $r, me);
+        }};
+    }
+    macro_rules! un {
+        ($name:expr, $v:expr, $op:expr) => {{
+            let me = o.push($name, None, &loc, parent);
+            o.push("operator", None, $op, me);
+            expr(o, $v, me);
+        }};
+    }
+    match e {
+        Expression::ScopeRef { index, .. } => {
+            o.push("scope-ref", Some(&index.to_string()), &loc, parent);
+        }
+        Expression::DataField { name, .. } => {
+            o.push("data-field", Some(name), &loc, parent);
+        }
+        Expression::ToStringWithoutUndefined { value, .. } => {
+            // synthetic wrapper of a `{{ }}` piece inside mixed text: its own location is the closing braces
+            expr(o, value, parent);
+        }
+        Expression::LitUndefined { .. } => {
+            o.push("lit-undefined", Some("undefined"), &loc, parent);
+        }
+        Expression::LitNull { .. } => {
+            o.push("lit-null", Some("null"), &loc, parent);
+        }
+        Expression::LitStr { value, .. } => {
+            o.push("lit-str", Some(value), &loc, parent);
+        }
+        Expression::LitInt { value, .. } => {
+            o.push("lit-int", Some(&value.to_string()), &loc, parent);
+        }
+        Expression::LitFloat { value, .. } => {
+            o.push("lit-float", Some(&value.to_string()), &loc, parent);
+        }
+        Expression::LitBool { value, .. } => {
+            o.push("lit-bool", Some(&value.to_string()), &loc, parent);
+        }
+        Expression::LitObj { fields, brace_location } => {
+            let me = o.push("lit-obj", None, &loc, parent);
+            o.push("brace", Some("{"), &brace_location.0, me);
+            for f in fields {
+                match f {
+                    ObjectFieldKind::Named { name, location, value, .. } => {
+                        o.push("object-key", Some(name), location, me);
+                        expr(o, value, me);
+                    }
+                    ObjectFieldKind::Spread { value, location } => {
+                        o.push("operator", Some("..."), location, me);
+                        expr(o, value, me);
+                    }
+                }
+            }
+            o.push("brace", Some("}"), &brace_location.1, me);
+        }
+        Expression::LitArr { fields, bracket_location } => {
+            let me = o.push("lit-arr", None, &loc, parent);
+            o.push("bracket", Some("["), &bracket_location.0, me);
+            for f in fields {
+                match f {
+                    ArrayFieldKind::Normal { value } => expr(o, value, me),
+                    ArrayFieldKind::Spread { value, location } => {
+                        o.push("operator", Some("..."), location, me);
+                        expr(o, value, me);
+                    }
+                    ArrayFieldKind::EmptySlot => {}
+                }
+            }
+            o.push("bracket", Some("]"), &bracket_location.1, me);
+        }
+        Expression::StaticMember { obj, field_name, dot_location, field_location } => {
+            let me = o.push("static-member", None, &loc, parent);
+            expr(o, obj, me);
+            o.push("operator", Some("."), dot_location, me);
+            o.push("member-name", Some(field_name), field_location, me);
+        }
+        Expression::DynamicMember { obj, field_name, bracket_location } => {
+            let me = o.push("dynamic-member", None, &loc, parent);
+            expr(o, obj, me);
+            o.push("bracket", Some("["), &bracket_location.0, me);
+            expr(o, field_name, me);
+            o.push("bracket", Some("]"), &bracket_location.1, me);
+        }
+        Expression::FuncCall { func, args, paren_location } => {
+            let me = o.push("call", None, &loc, parent);
+            expr(o, func, me);
+            o.push("paren", Some("("), &paren_location.0, me);
+            for a in args {
+                expr(o, a, me);
+            }
+            o.push("paren", Some(")"), &paren_location.1, me);
+        }
+        Expression::Reverse { value, location } => un!("unary", value, location),
+        Expression::BitReverse { value, location } => un!("unary", value, location),
+        Expression::Positive { value, location } => un!("unary", value, location),
+        Expression::Negative { value, location } => un!("unary", value, location),
+        Expression::TypeOf { value, location } => un!("unary", value, location),
+        Expression::Void { value, location } => un!("unary", value, location),
+        Expression::Multiply { left, right, location }
+        | Expression::Divide { left, right, location }
+        | Expression::Remainer { left, right, location }
+        | Expression::Plus { left, right, location }
+        | Expression::Minus { left, right, location }
+        | Expression::LeftShift { left, right, location }
+        | Expression::RightShift { left, right, location }
+        | Expression::UnsignedRightShift { left, right, location }
+        | Expression::Lt { left, right, location }
+        | Expression::Gt { left, right, location }
+        | Expression::Lte { left, right, location }
+        | Expression::Gte { left, right, location }
+        | Expression::InstanceOf { left, right, location }
+        | Expression::Eq { left, right, location }
+        | Expression::Ne { left, right, location }
+        | Expression::EqFull { left, right, location }
+        | Expression::NeFull { left, right, location }
+        | Expression::BitAnd { left, right, location }
+        | Expression::BitXor { left, right, location }
+        | Expression::BitOr { left, right, location }
+        | Expression::LogicAnd { left, right, location }
+        | Expression::LogicOr { left, right, location }
+        | Expression::NullishCoalescing { left, right, location } => bin!("binary", left, right, location),
+        Expression::Cond { cond, true_br, false_br, question_location, colon_location } => {
+            let me = o.push("cond", None, &loc, parent);
+            expr(o, cond, me);
+            o.push("operator", Some("?"), question_location, me);
+            expr(o, true_br, me);
+            o.push("operator", Some(":"), colon_location, me);
+            expr(o, false_br, me);
+        }
+        _ => {
+            o.push("unknown-expression", None, &loc, parent);
+        }
+    }
+}
+
+fn value(o: &mut Out, v: &Value, parent: i64, what: &str) {
+    match v {
+        Value::Static { value, location, .. } => {
+            o.push(&format!("static-{}", what), Some(value), location, parent);
+        }
+        Value::Dynamic { expression, double_brace_location, .. } => {
+            let me = o.push(&format!("dynamic-{}", what), None, &v.location(), parent);
+            // a mixed value is a chain of `+` over literal pieces and `{{ }}` pieces
+            fn pieces(o: &mut Out, e: &Expression, me: i64) {
+                match e {
+                    Expression::Plus { left, right, .. }
+                        if is_piece(left) && is_piece(right) =>
+                    {
+                        pieces(o, left, me);
+                        pieces(o, right, me);
+                    }
+                    Expression::LitStr { value, location } if true => {
+                        o.push("static-piece", Some(value), location, me);
+                    }
+                    Expression::ToStringWithoutUndefined { value, .. } => expr(o, value, me),
+                    other => expr(o, other, me),
+                }
+            }
+            fn is_piece(e: &Expression) -> bool {
+                match e {
+                    Expression::LitStr { .. } | Expression::ToStringWithoutUndefined { .. } => true,
+                    Expression::Plus { left, right, .. } => is_piece(left) && is_piece(right),
+                    _ => false,
+                }
+            }
+            let mixed = match &**expression {
+                Expression::Plus { left, right, .. } => is_piece(left) && is_piece(right),
+                Expression::ToStringWithoutUndefined { .. } => true,
+                _ => false,
+            };
+            if mixed {
+                o.items[me as usize]["mixed"] = json!(true);
+                pieces(o, expression, me);
+            } else {
+                o.push("brace-open", Some("{{"), &double_brace_location.0, me);
+                expr(o, expression, me);
+                o.push("brace-close", Some("}}"), &double_brace_location.1, me);
+            }
+        }
+        _ => {}
+    }
+}
+
+fn ident(o: &mut Out, kind: &str, i: &Ident, parent: i64) -> i64 {
+    o.push(kind, Some(&i.name), &i.location, parent)
+}
+fn strname(o: &mut Out, kind: &str, i: &StrName, parent: i64) -> i64 {
+    o.push(kind, Some(&i.name), &i.location, parent)
+}
+
+fn tag_location(o: &mut Out, t: &TagLocation, parent: i64) {
+    o.push("tag-open", Some("<"), &t.start.0, parent);
+    o.push("tag-open-end", Some(">"), &t.start.1, parent);
+    if let Some(end) = &t.end {
+        o.push("tag-close", Some("/"), &t.close, parent);
+        o.push("end-tag-open", Some("<"), &end.0, parent);
+        o.push("end-tag-end", Some(">"), &end.1, parent);
+    } else {
+        o.push("self-close", Some("/"), &t.close, parent);
+    }
+}
+
+fn common(o: &mut Out, c: &CommonElementAttributes, me: i64) {
+    if let Some((loc, v)) = &c.id {
+        o.push("attr-name:id", Some("id"), loc, me);
+        value(o, v, me, "value");
+    }
+    if let Some((loc, v)) = &c.slot {
+        o.push("attr-name:slot", Some("slot"), loc, me);
+        value(o, v, me, "value");
+    }
+    for a in &c.slot_value_refs {
+        ident(o, "attr-name:slot-value", &a.name, me);
+        strname(o, "scope-name", &a.value, me);
+    }
+    for a in &c.event_bindings {
+        ident(o, "attr-name:event", &a.name, me);
+        if let Some(v) = &a.value {
+            value(o, v, me, "value");
+        }
+    }
+    for a in &c.data {
+        ident(o, "attr-name:data", &a.name, me);
+        if let Some(v) = &a.value {
+            value(o, v, me, "value");
+        }
+    }
+    for a in &c.marks {
+        ident(o, "attr-name:mark", &a.name, me);
+        if let Some(v) = &a.value {
+            value(o, v, me, "value");
+        }
+    }
+}
+
+fn nodes(o: &mut Out, list: &[Node], parent: i64) {
+    for n in list {
+        node(o, n, parent);
+    }
+}
+
+fn node(o: &mut Out, n: &Node, parent: i64) {
+    match n {
+        Node::Text(v) => value(o, v, parent, "text"),
+        Node::Comment(c) => {
+            o.push("comment", Some(&c.content), &c.location, parent);
+        }
+        Node::UnknownMetaTag(t) => {
+            o.push("meta-tag", None, &t.location, parent);
+        }
+        Node::Element(e) => element(o, e, parent),
+        _ => {}
+    }
+}
+
+fn element(o: &mut Out, e: &Element, parent: i64) {
+    let me = o.push("element", None, &e.location(), parent);
+    tag_location(o, &e.tag_location, me);
+    match &e.kind {
+        ElementKind::Normal { tag_name, attributes, class, style, change_attributes, worklet_attributes, children, generics, extra_attr, common: c, .. } => {
+            ident(o, "tag-name", tag_name, me);
+            for a in attributes {
+                ident(o, match a.prefix { NormalAttributePrefix::Model(_) => "attr-name:model", _ => "attr-name:plain" }, &a.name, me);
+                if let Some(v) = &a.value {
+                    value(o, v, me, "value");
+                }
+            }
+            if let ClassAttribute::String(loc, v) = class {
+                o.push("attr-name:class", Some("class"), loc, me);
+                value(o, v, me, "value");
+            }
+            if let StyleAttribute::String(loc, v) = style {
+                o.push("attr-name:style", Some("style"), loc, me);
+                value(o, v, me, "value");
+            }
+            for a in change_attributes {
+                ident(o, "attr-name:change", &a.name, me);
+                if let Some(v) = &a.value {
+                    value(o, v, me, "value");
+                }
+            }
+            for a in worklet_attributes {
+                ident(o, "attr-name:worklet", &a.name, me);
+                strname(o, "static-value", &a.value, me);
+            }
+            for a in generics {
+                ident(o, "attr-name:generic", &a.name, me);
+                strname(o, "static-value", &a.value, me);
+            }
+            for a in extra_attr {
+                ident(o, "attr-name:extra-attr", &a.name, me);
+                strname(o, "static-value", &a.value, me);
+            }
+            common(o, c, me);
+            nodes(o, children, me);
+        }
+        ElementKind::Pure { children, slot, slot_value_refs, .. } => {
+            if let Some((loc, v)) = slot {
+                o.push("attr-name:slot", Some("slot"), loc, me);
+                value(o, v, me, "value");
+            }
+            for a in slot_value_refs {
+                ident(o, "attr-name:slot-value", &a.name, me);
+                strname(o, "scope-name", &a.value, me);
+            }
+            nodes(o, children, me);
+        }
+        ElementKind::For { list, item_name, index_name, key, children, .. } => {
+            o.push("attr-name:wx:for", Some("wx:for"), &list.0, me);
+            value(o, &list.1, me, "value");
+            o.push("attr-name:wx:for-item", Some("wx:for-item"), &item_name.0, me);
+            strname(o, "scope-name", &item_name.1, me);
+            o.push("attr-name:wx:for-index", Some("wx:for-index"), &index_name.0, me);
+            strname(o, "scope-name", &index_name.1, me);
+            o.push("attr-name:wx:key", Some("wx:key"), &key.0, me);
+            strname(o, "static-value", &key.1, me);
+            nodes(o, children, me);
+        }
+        ElementKind::If { branches, else_branch, .. } => {
+            for (bi, (loc, v, children)) in branches.iter().enumerate() {
+                o.push("attr-name:wx:if", Some(if bi == 0 { "wx:if" } else { "wx:elif" }), loc, me);
+                value(o, v, me, "value");
+                nodes(o, children, me);
+            }
+            if let Some((loc, children)) = else_branch {
+                o.push("attr-name:wx:else", Some("wx:else"), loc, me);
+                nodes(o, children, me);
+            }
+        }
+        ElementKind::TemplateRef { target, data, .. } => {
+            o.push("attr-name:is", Some("is"), &target.0, me);
+            value(o, &target.1, me, "value");
+            o.push("attr-name:data", Some("data"), &data.0, me);
+            value(o, &data.1, me, "template-data");
+        }
+        ElementKind::Include { path, .. } => {
+            o.push("attr-name:src", Some("src"), &path.0, me);
+            strname(o, "static-value", &path.1, me);
+        }
+        ElementKind::Slot { name, values, common: c, .. } => {
+            o.push("attr-name:name", Some("name"), &name.0, me);
+            value(o, &name.1, me, "value");
+            for a in values {
+                ident(o, "attr-name:slot-element-value", &a.name, me);
+                if let Some(v) = &a.value {
+                    value(o, v, me, "value");
+                }
+            }
+            common(o, c, me);
+        }
+        _ => {}
+    }
+}
+
+pub fn dump(path: &str, src: &str) -> J {
+    let (template, _ps) = glass_easel_template_compiler::parse::parse(path, src);
+    let mut o = Out { items: vec![] };
+    nodes(&mut o, &template.content, -1);
+    for t in &template.globals.sub_templates {
+        let me = o.push("template-definition", None, &(t.tag_location.start.0.start..t.tag_location.end.as_ref().map(|x| x.1.end).unwrap_or(t.tag_location.start.1.end)), -1);
+        tag_location(&mut o, &t.tag_location, me);
+        o.push("attr-name:name", Some("name"), &t.name_location, me);
+        strname(&mut o, "static-value", &t.name, me);
+        nodes(&mut o, &t.content, me);
+    }
+    for t in &template.globals.imports {
+        let me = o.push("import", None, &(t.tag_location.start.0.start..t.tag_location.end.as_ref().map(|x| x.1.end).unwrap_or(t.tag_location.start.1.end)), -1);
+        tag_location(&mut o, &t.tag_location, me);
+        o.push("attr-name:src", Some("src"), &t.src_location, me);
+        strname(&mut o, "static-value", &t.src, me);
+    }
+    for t in &template.globals.includes {
+        let me = o.push("include-global", None, &(t.tag_location.start.0.start..t.tag_location.end.as_ref().map(|x| x.1.end).unwrap_or(t.tag_location.start.1.end)), -1);
+        o.push("attr-name:src", Some("src"), &t.src_location, me);
+        strname(&mut o, "static-value", &t.src, me);
+    }
+    for s in &template.globals.scripts {
+        match s {
+            Script::Inline { tag_location: tl, module_location, module_name, content, content_location, .. } => {
+                let me = o.push("script", None, &(tl.start.0.start..tl.end.as_ref().map(|x| x.1.end).unwrap_or(tl.start.1.end)), -1);
+                tag_location(&mut o, tl, me);
+                o.push("attr-name:module", Some("module"), module_location, me);
+                strname(&mut o, "scope-name", module_name, me);
+                o.push("script-content", Some(content), content_location, me);
+            }
+            Script::GlobalRef { tag_location: tl, module_location, module_name, src_location, src, .. } => {
+                let me = o.push("script", None, &(tl.start.0.start..tl.end.as_ref().map(|x| x.1.end).unwrap_or(tl.start.1.end)), -1);
+                tag_location(&mut o, tl, me);
+                o.push("attr-name:module", Some("module"), module_location, me);
+                strname(&mut o, "scope-name", module_name, me);
+                o.push("attr-name:src", Some("src"), src_location, me);
+                strname(&mut o, "static-value", src, me);
+            }
+            _ => {}
+        }
+    }
+    // the source map of re-printing
+    let mut st = Stringifier::new(String::new(), path, src);
+    template.stringify_write(&mut st).unwrap();
+    let (printed, sm) = st.finish();
+    let toks: Vec<J> = sm
+        .tokens()
+        .map(|t| json!({"dl": t.get_dst_line(), "dc": t.get_dst_col(), "sl": t.get_src_line(), "sc": t.get_src_col(), "name": t.get_name()}))
+        .collect();
+    json!({"items": o.items, "printed": printed, "map": toks})
+}
